@@ -664,6 +664,11 @@ const (
 	// the target supports SACK and says so in every acknowledgement: each probe is answered by a duplicate ACK whose
 	// SACK block is that probe's own byte - with the run's initial sequence number two below the 2^32 wrap
 	capSackAnswers
+	// as capSack, but the capture handle sees, before the run's own SYN-ACK, the target's SYN-ACK to ANOTHER connection
+	// attempt from this host (a concurrent SYN traceroute or end-to-end probe to the same target: SYN probes carry no
+	// options, so that SYN-ACK has no SACK-permitted).  The SYN-ACK filter matches on the target only.  It says nothing
+	// about what the target grants THIS connection.
+	capSackForeignSynackFirst
 )
 
 var injectedCause = errors.New("injected non-capability failure")
@@ -754,6 +759,11 @@ func runTCPCase(t *testing.T, method string, capab int) (sx, sx) {
 					case lp := <-portCh:
 						c := cfg
 						c.sport = lp
+						if capab == capSackForeignSynackFirst {
+							other := c
+							other.sport = lp%60000 + 1025
+							h.src.inject(other.synack(false, 0, 0x12), time.Time{})
+						}
 						switch capab {
 						case capNoSackPermitted:
 							h.src.inject(c.synack(false, 0, 0x12), time.Time{})
@@ -1143,7 +1153,7 @@ func labPar(e labEnv) {
 	}
 	for k := 0; k < reps; k++ {
 		for _, m := range []string{"syn", "sack", "prefer_sack"} {
-			for capab := capSack; capab <= capSackAnswers; capab++ {
+			for capab := capSack; capab <= capSackForeignSynackFirst; capab++ {
 				in, out := runTCPCase(e.t, m, capab)
 				w.put(in, out)
 				tags[fmt.Sprintf("tcp_run:%s:cap%d", m, capab)]++
